@@ -550,6 +550,30 @@ CORPUS = [
     [[([("meat",)], False, ("step", ("slice",), [_leaf("spam", ("qty", 1, "kg", " ", ""))])), (None, False, ("step", ("fry",), [_leaf("meat", ("qty", 1000, "G", " ", "")), _leaf("eggs")]))]],
     [[(None, False, _leaf("milk", ("qty", 2, "Pints", " ", " of"))), (None, False, ("step", ("warm",), [_leaf("milk", ("qty", 2, "PINT", "", "")), _leaf("sugar")]))]],
     [[(None, False, _leaf("butter", ("qty", 1, "LB", "", ""))), (None, False, ("step", ("cream",), [_leaf("butter", ("qty", 16, "Oz", " ", " of the")), _leaf("sugar")]))]],
+    # a definition built on a reference (to something of an earlier block / used twice) has no quantity of its own: a use by quantity is never the whole
+    [[(None, False, _leaf("spam", ("qty", 100, "g", "", "")))],
+     [([("fried",)], False, ("step", ("fry",), [_leaf("spam")])), (None, False, ("step", ("boil",), [_leaf("fried", ("qty", 100, "g", "", "")), _leaf("water")]))]],
+    [[(None, False, _leaf("spam", ("qty", 100, "g", "", ""))), ([("fried",)], False, ("step", ("fry",), [_leaf("spam", ("prop", Fraction(1, 2), " of the"))])),
+      (None, False, ("step", ("boil",), [_leaf("fried", ("qty", 100, "g", "", "")), _leaf("spam", ("rem", "rest", " of the"))]))]],
+    # the same number in a unit of another kind (single-unit kinds: bulbs / cloves, packet / sachet, cans / jars) is not the whole amount
+    [[(None, False, _leaf("garlic", ("qty", 2, "bulbs", " ", ""))), (None, False, ("step", ("roast",), [_leaf("garlic", ("qty", 2, "cloves", " ", "")), _leaf("oil")]))]],
+    [[(None, False, _leaf("yeast", ("qty", 1, "packet", " ", ""))), (None, False, ("step", ("bloom",), [_leaf("yeast", ("qty", 1, "sachet", " ", " of")), _leaf("water")]))]],
+    [[(None, False, _leaf("garlic", ("qty", 2, "cloves", " ", ""))), (None, False, ("step", ("crush",), [_leaf("garlic", ("qty", 2, "g", "", ""))]))]],
+    [[(None, False, _leaf("tomatoes", ("qty", 2, "cans", " ", ""))), (None, False, ("step", ("simmer",), [_leaf("tomatoes", ("xqty", 2, "jars", " ", "")), _leaf("basil")]))]],
+    # a known unit on the definition, an unknown / oddly spaced one on the single use
+    [[(None, False, _leaf("flour", ("qty", 200, "g", "", ""))), (None, False, ("step", ("knead",), [_leaf("flour", ("xqty", 2, "handfuls", " ", "")), _leaf("water")]))]],
+    [[(None, False, _leaf("salt", ("qty", 1, "tsp", " ", ""))), (None, False, ("step", ("mix",), [_leaf("salt", ("qty", 1, "tea  spoon", " ", ""))]))]],
+    # names that differ only under full Unicode case folding are different names
+    [[([("So\u00dfe",)], False, ("step", ("einkochen",), [_leaf("Tomaten", ("qty", 400, "g", "", ""))])),
+      (None, False, ("step", ("anrichten",), [_leaf("Nudeln", ("qty", 200, "g", "", "")), _leaf("Sosse")]))]],
+    [[([("\ufb01let",)], False, ("step", ("trim",), [_leaf("beef", ("qty", 1, "kg", " ", ""))])), (None, False, ("step", ("sear",), [_leaf("filet"), _leaf("\ufb01let")]))]],
+    # a titled link inside a chain used once by the full quantity (folded through the title)
+    [[([("filling",)], True, ("step", ("slice",), [_leaf("spam", ("qty", 100, "g", "", ""))])), ([("meat",)], False, ("step", ("fry",), [_leaf("filling")])),
+      (None, False, ("step", ("boil",), [_leaf("meat", ("qty", 100, "g", "", "")), _leaf("water")]))]],
+    # a step with the same input written several times, after a fold elsewhere in the description
+    [[(None, False, _leaf("onion", ("qty", 1, None, "", ""))), ([("sauce",)], False, ("step", ("fry",), [("step", ("chop",), [_leaf("onion")]), _leaf("tomatoes", ("qty", 400, "g", "", ""))])),
+      (None, False, ("step", ("layer",), [_leaf("pasta sheets", ("qty", 3, None, "", "")), _leaf("sauce", ("prop", Fraction(1, 3), " of the")), _leaf("pasta sheets", ("qty", 3, None, "", "")),
+                                           _leaf("sauce", ("prop", Fraction(1, 3), " of the")), _leaf("pasta sheets", ("qty", 3, None, "", "")), _leaf("sauce", ("prop", Fraction(1, 3), " of the"))]))]],
 ]
 
 
